@@ -570,6 +570,13 @@ acquire_stop(struct AcquireRuntime* self_)
         // already been released, flush it. This takes at most 2 iterations.
         if (video->monitor.reader.id) {
             size_t nbytes;
+            // Release a region the client still holds: the flush below needs
+            // an unmapped reader (a mapped one is flagged as an error that
+            // would make every later acquire_map_read() fail).
+            if (video->monitor.reader.state == ChannelState_Mapped) {
+                channel_read_unmap(
+                  &video->sink.in, &video->monitor.reader, (size_t)-1);
+            }
             do {
                 struct slice slice =
                   channel_read_map(&video->sink.in, &video->monitor.reader);
